@@ -36,6 +36,24 @@ def on_cluster(c):
     return d
 
 
+def on_shared(c):
+    """all callers use ONE service instance over one store (one node serving several clients)"""
+    d = dict(c)
+    d["world"] = "shared"
+    return d
+
+
+def parked_cases(world):
+    """caller 0 parked after each of its storage actions (in particular: after its claim, after creating the mapping,
+    after writing the code record) while caller 1 — another client, the same client, a revoker — runs to completion"""
+    out = []
+    for p in range(1, 12):
+        for other in (act(102, 1), act(101, 2), rev()):
+            out.append(case([act(101, 0), dict(other)], [0] * p + [1] * 12, world=world))
+            out.append(case([dict(other), act(101, 0)], [1] * p + [0] * 12, world=world))
+    return out
+
+
 # the witness of DESIGN.md C06: both callers read the code before either writes it
 WITNESSES = [
     case([act(101, 0), act(102, 1)], [0, 1]),
@@ -54,6 +72,9 @@ WITNESSES = [
     case([act(101, 0), act(102, 1)], [0] * 3 + [1] * 12, world="cluster"),
     case([act(101, 0), act(101, 2)], [0] * 4 + [1] * 12, world="cluster"),
     case([act(101, 0), rev()], [0] * 3 + [1] * 4 + [0] * 12, world="cluster"),
+    # one node, one service instance, two clients: caller 0 parked right after its claim while caller 1 runs
+    case([act(101, 0), act(102, 1)], [0] * 4 + [1] * 12, world="shared"),
+    case([act(101, 0), act(102, 1)], [0, 1], world="shared"),
     # activation across the end of the activation period
     case([act(101, 0), TICK], [0, 0, 0, 0, 1]),
     case([act(101, 0), TICK, act(102, 1)], [0, 0, 0, 0, 0, 0, 0, 2, 2, 1]),
@@ -295,6 +316,10 @@ def run(ctx, only_cases=None):
         pool = [c for c in cases if c.get("world", "") == "" and not any(t["kind"] == "tick" for t in c["threads"])]
         cases += [on_cluster(c) for c in (ex if thorough else ctx.rng.sample(ex, min(len(ex), 500)))]
         cases += [on_cluster(c) for c in ctx.rng.sample(pool, min(len(pool), 3000 if thorough else 300))]
+        # ... and with all callers on ONE service instance (same node), parked at every point incl. after the claim
+        cases += parked_cases("shared") + parked_cases("cluster")
+        cases += [on_shared(c) for c in ctx.rng.sample(ex, min(len(ex), 40000 if thorough else 300))]
+        cases += [on_shared(c) for c in ctx.rng.sample(pool, min(len(pool), 3000 if thorough else 200))]
     outs = run_parallel(binary, cases, par=8)
     # ---- the property predicate evaluated by the harness on the real code's outputs
     nviol = {}
@@ -342,13 +367,15 @@ def run(ctx, only_cases=None):
     nontriv = set()
     stats = {"activators": 0, "revokers": 0, "ticks": 0, "faults_hit": 0, "successes": 0, "overlapping_runs": 0,
              "initial_state": {s: 0 for s in STATES}, "structured": 0, "malformed": 0, "ambiguous_timing_skipped": 0,
-             "cluster_world_runs": 0,
+             "cluster_world_runs": 0, "shared_service_instance_runs": 0, "entries_skipped_caller_blocked_outside_store": 0,
              "model_unmodelled_branch_skipped": unmodelled}
     for c, o in zip(cases, outs):
         stats["activators"] += sum(t["kind"] == "act" for t in c["threads"])
         stats["revokers"] += sum(t["kind"] == "rev" for t in c["threads"])
         stats["ticks"] += 1 if o["ticked"] else 0
         stats["cluster_world_runs"] += 1 if c.get("world") == "cluster" else 0
+        stats["shared_service_instance_runs"] += 1 if c.get("world") == "shared" else 0
+        stats["entries_skipped_caller_blocked_outside_store"] += int(o.get("skipped", 0))
         stats["faults_hit"] += sum(1 for t in o["threads"] if t.get("faulted"))
         ok = sum(1 for t, ti in zip(o["threads"], c["threads"]) if ti["kind"] == "act" and t["res"] == 0)
         stats["successes"] += ok
